@@ -260,19 +260,54 @@ def rule_rw5(ctx):
 
 
 def rule_comparisons(ctx):
+    """evaluate_comparisons decided per relation: the function is evaluated on a comparison node with the loop specialised on one guard of
+    each relation; the formula pushed for that guard must be the truth constant of the reflexive table when both sides are syntactically
+    equal and the unchanged single comparison otherwise (whatever the shape of the code: if / match / early return in a helper)."""
+    from .. import leaves
     fx = ctx.facts
     b = fx.fn("intuitionistic::evaluate_comparisons")
+    site = ctx.site(b)
+
+    def C(n, **f):
+        return ("ctor", n, tuple(sorted(f.items())))
+    T, RHS = ("param", "$t"), ("param", "$rhs")
+    node = C("Formula::AtomicFormula", **{"0": C("AtomicFormula::Comparison", **{"0": C("Comparison", term=T, guards=("param", "$g"))})})
+    table = {"Equal": "Truth", "GreaterEqual": "Truth", "LessEqual": "Truth", "NotEqual": "Falsity", "Greater": "Falsity", "Less": "Falsity"}
+    rels = fx.variants("syntax_tree::fol::sigma_0::Relation")
+    tab_ok, guard_ok, chain_ok = set(rels) == set(table), True, True
+    detail = {}
+    for R in rels:
+        ev = sym.Eval(fx, inline_depth=0)
+        ev.loop_args = [C("Guard", relation=C("Relation::" + R), term=RHS)]
+        v = ev.function(b, [node])
+        pushed = [x for x in sym.subterms(v) if isinstance(x, tuple) and x[:1] == ("upd",) and x[2] == "push" and leaves.strip_acc(x[1]) in (("list", ()), ("call", "Vec::new", ()))]
+        if len(pushed) != 1 or pushed[0][3][0][:2] != ("ctor", "Formula::AtomicFormula"):
+            tab_ok = guard_ok = False
+            detail[R] = "no single push of an atomic formula"
+            continue
+        X = dict(pushed[0][3][0][2])["0"]
+        eq = ("cond", ("bin", "Eq") + tuple(sorted((T, RHS), key=repr)), True)
+        ne = (eq[0], eq[1], False)
+        got = {}
+        for ts, x in leaves.leaves(X):
+            got.setdefault(tuple(ts), []).append(leaves.strip_acc(x))
+        same = got.get((eq,))
+        diff = got.get((ne,)) or got.get((("not", (eq,)),))
+        detail[R] = {str(k): [sym.pretty(x)[:60] for x in v_] for k, v_ in got.items()}
+        if same != [C("AtomicFormula::" + table.get(R, "?"))]:
+            tab_ok = False
+        if diff != [C("AtomicFormula::Comparison", **{"0": C("Comparison", term=T, guards=("list", (C("Guard", relation=C("Relation::" + R), term=RHS),)))})] or len(got) != 2:
+            guard_ok = False
+        # the right term becomes the next left term: besides the pattern binding, the loop-carried left side ends the iteration as the right term
+        carried = sum(1 for vals in ev.last_env.values() for t_ in vals[-1:] if t_ == RHS)
+        if not (v[:2] == ("call", "Formula::conjoin") and carried >= 2):
+            chain_ok = False
+    ctx.add("RW-1", "evaluate_comparisons:table", tab_ok, site, "t = t, t >= t, t <= t are #true; t != t, t > t, t < t are #false", construct=detail if not tab_ok else None)
+    ctx.add("RW-1", "evaluate_comparisons:guard", guard_ok, site, "the table is applied only when both sides are syntactically equal; otherwise the single comparison is kept unchanged",
+            construct=detail if not guard_ok else None)
     v = sym.Eval(fx, inline_depth=0).function(b)
-    r = repr(v)
-    tab = [x for x in sym.subterms(v) if isinstance(x, tuple) and x[:1] == ("match",) and "Relation::" in repr(x[2][0][0])]
-    ok = len(tab) == 1 and dict((a[0], a[1]) for a in tab[0][2]) == {"Relation::Equal | Relation::GreaterEqual | Relation::LessEqual": ("ctor", "AtomicFormula::Truth", ()),
-                                                                    "Relation::Greater | Relation::Less | Relation::NotEqual": ("ctor", "AtomicFormula::Falsity", ())}
-    ctx.add("RW-1", "evaluate_comparisons:table", ok, ctx.site(b), "t = t, t >= t, t <= t are #true; t != t, t > t, t < t are #false")
-    ifs = [x for x in sym.subterms(v) if isinstance(x, tuple) and x[:1] == ("if",) and x[1][:2] == ("bin", "Eq")]
-    ok = len(ifs) == 1 and tab and ifs[0][2] == tab[0] and ifs[0][3][:2] == ("ctor", "AtomicFormula::Comparison") and "Guard::term" not in r
-    ctx.add("RW-1", "evaluate_comparisons:guard", ok, ctx.site(b), "the table is applied only when both sides are syntactically equal; otherwise the single comparison is kept unchanged")
-    ok = v[0] == "match" and v[2][0][1][:2] == ("call", "Formula::conjoin") and v[2][1] == ("_", F) and "'acc'" in r
-    ctx.add("RW-1", "evaluate_comparisons:chain", ok, ctx.site(b), "a chain is rewritten into the conjunction of its consecutive comparisons (the right term becomes the next left term)")
+    ok = chain_ok and v[0] == "match" and v[2][-1] == ("_", F) and len(v[2]) == 2
+    ctx.add("RW-1", "evaluate_comparisons:chain", ok, site, "a chain is rewritten into the conjunction of its consecutive comparisons (the right term becomes the next left term); other formulas are unchanged")
 
 
 def rule_strategy(ctx):
